@@ -14,6 +14,7 @@ import (
 	"net/url"
 	"regexp"
 	"strings"
+	"unicode"
 )
 
 // SanitizeCSS attempts to sanitize CSS properties.
@@ -82,13 +83,15 @@ func sanitizeBackgroundImage(v string) string {
 		return InnocuousPropertyValue
 	}
 	for _, u := range strings.Split(v, ",") {
-		u = strings.TrimSpace(u)
+		// Trim only what CSS treats as white space: anything else would be part of the function name.
+		u = strings.Trim(u, " \t\n\r\f")
 		var found bool
 		for i, prefix := range validURLPrefixes {
-			if strings.HasPrefix(u, prefix) && strings.HasSuffix(u, validURLSuffixes[i]) {
+			if len(u) >= len(prefix)+len(validURLSuffixes[i]) && strings.HasPrefix(u, prefix) && strings.HasSuffix(u, validURLSuffixes[i]) {
 				found = true
 				u = strings.TrimPrefix(u, validURLPrefixes[i])
 				u = strings.TrimSuffix(u, validURLSuffixes[i])
+				found = !strings.ContainsFunc(u, urlTokenBreakers[i])
 				break
 			}
 		}
@@ -97,6 +100,17 @@ func sanitizeBackgroundImage(v string) string {
 		}
 	}
 	return v
+}
+
+// urlTokenBreakers report the runes that would end or break the url() token of the corresponding form:
+// the closing quote, a backslash (which would escape it), newlines and controls inside the quoted forms;
+// white space, quotes, parentheses, backslashes and controls inside the unquoted form.
+var urlTokenBreakers = []func(r rune) bool{
+	func(r rune) bool { return r == '"' || r == '\\' || r < 0x20 || r == 0x7f },
+	func(r rune) bool { return r == '\'' || r == '\\' || r < 0x20 || r == 0x7f },
+	func(r rune) bool {
+		return r == '"' || r == '\'' || r == '(' || r == ')' || r == '\\' || r < 0x20 || r == 0x7f || unicode.IsSpace(r)
+	},
 }
 
 func urlIsSafe(s string) bool {
